@@ -813,38 +813,56 @@ fn field_num(v: &MVal) -> Option<(Num2, u8)> {
 
 /// int() cast: the set of integers the cast may yield (rounding direction is not specified);
 /// Err(()) = not convertible (the comparison is then false)
-fn cast_int(v: &MVal) -> Result<Vec<i128>, ()> {
+pub enum CastI {
+    /// the integers the cast may yield
+    Cands(Vec<i128>),
+    /// a finite or infinite double outside the i64 range: "not convertible" (false), but a
+    /// verdict that is true because the relation holds for the real value is not a wrap-around
+    Real(f64),
+    /// not convertible: every comparison is false
+    No,
+}
+fn cast_int(v: &MVal) -> CastI {
     match v {
-        MVal::Bool(b) => Ok(vec![*b as i128]),
-        MVal::Int(i) => Ok(vec![*i as i128]),
+        MVal::Bool(b) => CastI::Cands(vec![*b as i128]),
+        MVal::Int(i) => CastI::Cands(vec![*i as i128]),
         MVal::UInt(u) => {
             if *u <= i64::MAX as u64 {
-                Ok(vec![*u as i128])
+                CastI::Cands(vec![*u as i128])
             } else {
-                Err(())
+                CastI::No
             }
         }
         MVal::Float(f) => {
-            if f.is_nan() || f.is_infinite() {
-                return Err(());
+            if f.is_nan() {
+                return CastI::No;
+            }
+            if f.is_infinite() {
+                return CastI::Real(*f);
             }
             let mut out = vec![];
+            let mut outside = false;
             for c in [f.round(), f.floor(), f.ceil(), f.trunc()] {
                 if c >= -9223372036854775808.0 && c < 9223372036854775808.0 {
                     let i = c as i128;
                     if !out.contains(&i) {
                         out.push(i);
                     }
+                } else {
+                    outside = true;
                 }
             }
-            if out.is_empty() {
-                Err(())
+            if out.is_empty() || outside {
+                CastI::Real(*f)
             } else {
-                Ok(out)
+                CastI::Cands(out)
             }
         }
-        MVal::Str(s) => s.parse::<i64>().map(|i| vec![i as i128]).map_err(|_| ()),
-        _ => Err(()),
+        MVal::Str(s) => match s.parse::<i64>() {
+            Ok(i) => CastI::Cands(vec![i as i128]),
+            Err(_) => CastI::No,
+        },
+        _ => CastI::No,
     }
 }
 fn cast_flt(v: &MVal) -> Result<f64, ()> {
@@ -866,8 +884,15 @@ fn num_pred(kmod: &KeyMod, op: Op, c: &Num, v: &MVal) -> u8 {
     };
     match kmod {
         KeyMod::Int => match cast_int(v) {
-            Err(()) => F,
-            Ok(cands) => {
+            CastI::No => F,
+            CastI::Real(x) => {
+                F | if op_holds(op, num_cmp(&Num2::Flt(x), &cn)) {
+                    T
+                } else {
+                    0
+                }
+            }
+            CastI::Cands(cands) => {
                 let mut r = 0;
                 for i in cands {
                     let holds = op_holds(op, num_cmp(&Num2::Int(i), &cn));
@@ -1094,8 +1119,9 @@ fn operand_val<'a>(o: &Operand, obj: &'a MObj) -> Result<OpV, u8> {
         Operand::Int(f) => match lookup(obj, f) {
             None => Err(M),
             Some(v) => match cast_int(v) {
-                Ok(c) => Ok(OpV::Ints(c)),
-                Err(()) => Err(F),
+                CastI::Cands(c) => Ok(OpV::Ints(c)),
+                CastI::Real(x) => Ok(OpV::Real(x)),
+                CastI::No => Err(F),
             },
         },
         Operand::Flt(f) => match lookup(obj, f) {
@@ -1117,6 +1143,7 @@ fn operand_val<'a>(o: &Operand, obj: &'a MObj) -> Result<OpV, u8> {
 
 enum OpV {
     Ints(Vec<i128>),
+    Real(f64),
     Flt(f64),
     Str(String),
 }
@@ -1138,7 +1165,13 @@ fn eval_cmp(l: &Operand, op: Op, r: &Operand, obj: &MObj) -> u8 {
     };
     let rv = match operand_val(r, obj) {
         Ok(v) => v,
-        Err(x) => return x,
+        Err(x) => {
+            // an out-of-range left operand may already have been reported as "not convertible"
+            if x == M && matches!(lv, OpV::Real(_)) {
+                return NT;
+            }
+            return x;
+        }
     };
     match (lv, rv) {
         (OpV::Ints(a), OpV::Ints(b)) => {
@@ -1149,6 +1182,27 @@ fn eval_cmp(l: &Operand, op: Op, r: &Operand, obj: &MObj) -> u8 {
                 }
             }
             s
+        }
+        (OpV::Real(a), OpV::Ints(b)) => {
+            let mut s = F;
+            for y in &b {
+                if op_holds(op, num_cmp(&Num2::Flt(a), &Num2::Int(*y))) {
+                    s |= T;
+                }
+            }
+            s
+        }
+        (OpV::Ints(a), OpV::Real(b)) => {
+            let mut s = F;
+            for x in &a {
+                if op_holds(op, num_cmp(&Num2::Int(*x), &Num2::Flt(b))) {
+                    s |= T;
+                }
+            }
+            s
+        }
+        (OpV::Real(a), OpV::Real(b)) => {
+            F | if op_holds(op, a.partial_cmp(&b)) { T } else { 0 }
         }
         (OpV::Flt(a), OpV::Flt(b)) => b2s(op_holds(op, a.partial_cmp(&b))),
         (OpV::Str(a), OpV::Str(b)) => {
